@@ -137,3 +137,10 @@ Example C11_example_attacks_confined :
   forall os, In os [os_hardlink_cwd; os_raw_target; os_raw_target_blob; os_title_through_link; os_abs_title; os_hardlink_symlink] ->
   forall p, inside wd0 p = false -> view_at (fst (run0 cfg_fixed os)) p = view_at fs0 p.
 Proof. exact attacks_confined_fixed. Qed.
+
+Example C11_example_narrow_unpack_directory :
+  snd (run0 cfg_fixed os_narrow) = [true] /\
+  view_at (fst (run0 cfg_fixed os_narrow)) [b "r"; b "w"; b "t"] = VDir 448%N /\
+  view_at (fst (run0 cfg_fixed os_narrow)) [b "r"; b "w"; b "t"; b "a"] = VDir 493%N /\
+  view_at (fst (run0 cfg_fixed os_narrow)) [b "r"; b "w"] = VDir 493%N.
+Proof. exact narrow_ok. Qed.
